@@ -150,6 +150,24 @@ def cfg_oracle(case, impl):
     return None
 
 
+def zk_oracle(case, impl):
+    """'after its Zookeeper session is reported expired': every StateExpired session event must be published (flag down
+    and Broadcast), and nothing but a session event may report the connection back."""
+    f = case.split()
+    n = int(f[2])
+    outs = impl.split()
+    conn = f[1] == "1"
+    for k in range(min(n, len(outs))):
+        typ, st = f[3 + 2 * k], f[4 + 2 * k]
+        o = outs[k]
+        if typ == "s" and st == "exp" and o != "0b":
+            return "session event %d (StateExpired) was not published: connected=%s broadcast=%s" % (k, o[0], o[1] == "b")
+        if o[0] == "1" and not conn and not (typ == "s" and st in ("con", "has", "ro")):
+            return "event %d (%s %s) reported the connection back" % (k, typ, st)
+        conn = o[0] == "1"
+    return None
+
+
 def cfg_mi(impl):
     t = impl.split()
     if t and t[0].startswith("MI:"):
@@ -221,6 +239,25 @@ def run(chk, failed):
                 chk.nontrivial.add(C.case_hash(c))
     for i in (0, len(cases) // 2, len(cases) - 1):
         chk.sample({"case": cases[i], "impl": impl[i], "model": model[i]})
+
+    # --- the session publisher: zookeeper.Coordinator.mainLoop against EvalLoop.zk_session ---------------------
+    zcases = []
+    for i in range(40 if not chk.thorough else 800):
+        ln, tg = G.gen_zk(rng, i)
+        zcases.append(ln)
+        chk.count("kind:zk")
+        for t in tg:
+            chk.count("zk:" + t)
+    zimpl, zmodel, zmism = chk.differential("evalloop", "evalloopzk", "TestVerifProbeEvalloopzk", zcases, name="evalloopzk", timeout=600)
+    for c, a in zip(zcases, zimpl):
+        if "b" in a and "1" in a:
+            chk.nontrivial.add(C.case_hash(c))
+    for (i, c, a, m) in zmism[:2]:
+        why = zk_oracle(c, a)
+        chk.violation("zk_%d" % i, {"kind": "session-events", "probe": "zookeeper/TestVerifProbeEvalloopzk", "case": c,
+                                    "impl_output": a, "model_output": m, "broken": "corr:zookeeper.Coordinator.mainLoop (EvalLoop.zk_session)",
+                                    "oracle_verdict": why or "differs from EvalLoop.zk_session; every expiry was still reported",
+                                    "cmd": "bin/check C15 --replay <this file>"}, found_input=why is not None)
 
     # --- disagreements -------------------------------------------------------------------------------------------
     retry = []
@@ -355,6 +392,13 @@ def replay(path):
     obj = json.load(open(path))
     chk = framework.Check("C15", "quick", int(obj.get("seed", 1)))
     case = obj["case"]
+    if case.startswith("zk "):
+        impl, model, mism = chk.differential("evalloop", "evalloopzk", "TestVerifProbeEvalloopzk", [case], name="replay")
+        print("case :", case)
+        print("impl :", impl[0])
+        print("model:", model[0])
+        print("oracle:", zk_oracle(case, impl[0]))
+        return 1 if mism else 0
     impl, model, mism = chk.differential("evalloop", "evalloop", "TestVerifProbeEvalloop", [case], name="replay", project=seq_of)
     print("case :", case)
     print("impl :", impl[0])
